@@ -3,7 +3,7 @@ import vpdriver
 PROP = {
     "ready": True,
     "harness": ["harness/C12.cpp"],
-    "units": [{"src": "R:igris/util/numconvert.c"}] + vpdriver.libc_units(["stdlib/strtod.c"]),
+    "units": [{"src": "R:igris/util/numconvert.c", "opt": "-O1"}] + vpdriver.libc_units(["stdlib/strtod.c"]),
     "targets": [
         {"name": "ftoa_sweep", "mode": "enum", "hang_s": 120},
         {"name": "ftoa", "quick": 2000000, "thorough": 30000000, "maxlen": 48},
